@@ -212,6 +212,28 @@ var defects = []defect{{
 
 		return err == nil && bytes.Equal(out, want) && cl == int64(len(out)), fmt.Sprintf("len(out)=%d want=%d err=%v", len(out), len(want), err)
 	},
+}, {
+	id: "D13", prop: "C04", what: "non-ASCII bytes of modifier values are dropped by the option splitter",
+	run: func() (bool, string) {
+		r := mustRule("||example.org^$client='Fr\xc3\xa4nk'")
+		q := rules.NewRequestForHostname("example.org")
+		q.ClientName = "Fr\xc3\xa4nk"
+		m := r.Match(q)
+		q.ClientName = "Fr\xc3nk"
+		m2 := r.Match(q)
+
+		return m && !m2, fmt.Sprintf("match(Fr\\xc3\\xa4nk)=%v match(Fr\\xc3nk)=%v", m, m2)
+	},
+}, {
+	id: "D14", prop: "C08", what: "DNSRewrites returns $badfilter rules and the rules they disable",
+	run: func() (bool, string) {
+		s := storageOf("||e.org^$dnsrewrite=1.2.3.4\n||e.org^$dnsrewrite=5.6.7.8\n||e.org^$dnsrewrite=5.6.7.8,badfilter\n")
+		e := urlfilter.NewDNSEngine(s)
+		res, _ := e.MatchRequest(&urlfilter.DNSRequest{Hostname: "e.org", DNSType: 1})
+		got := texts(res.DNSRewrites())
+
+		return fmt.Sprint(got) == "[||e.org^$dnsrewrite=1.2.3.4]", fmt.Sprintf("DNSRewrites=%q", got)
+	},
 }}
 
 func runDefects() (failed int) {
